@@ -37,6 +37,7 @@ def main():
     ap.add_argument("--demo", action="store_true", help="also re-run the demonstrations")
     ap.add_argument("--suite", action="store_true", help="also run the repository's test-suite on the changed copy")
     ap.add_argument("--no-checks", action="store_true")
+    ap.add_argument("--seeds", default="", help="comma-separated VERIF_SEED values: run the check once per seed and report the caught fraction")
     a = ap.parse_args()
     os.makedirs("/root/scratch", exist_ok=True)
     root = os.path.join(VERIF, "seeded")
@@ -74,6 +75,16 @@ def main():
             for prop in ([] if a.no_checks else checks):
                 t0 = time.time()
                 env = dict(os.environ, VERIF_REPO=copy, VERIF_OUT=base)
+                if a.seeds:
+                    exits = {}
+                    for sd in a.seeds.split(","):
+                        env["VERIF_SEED"] = sd
+                        p = subprocess.run([os.path.join(VERIF, "check"), prop, "--tier", a.tier], env=env, capture_output=True, text=True)
+                        exits[sd] = p.returncode
+                    rec.setdefault("by_seed", {})[prop] = exits
+                    rec["checks"][prop] = dict(exit=1 if all(v == 1 for v in exits.values()) else 0, wall=round(time.time() - t0, 1),
+                                               first_violation=[])
+                    continue
                 p = subprocess.run([os.path.join(VERIF, "check"), prop, "--tier", a.tier], env=env, capture_output=True, text=True)
                 viol = [l[:260] for l in p.stdout.splitlines() if l.startswith("violation:")]
                 rec["checks"][prop] = dict(exit=p.returncode, wall=round(time.time() - t0, 1), first_violation=viol[:1])
@@ -85,6 +96,11 @@ def main():
             print(json.dumps(rec), flush=True)
         finally:
             shutil.rmtree(base, ignore_errors=True)
+    if a.seeds:
+        with open(os.path.join(root, "RESULTS-by-seed.json"), "w") as f:
+            json.dump(out, f, indent=1)
+        print("multi-seed: mutants not caught under every seed: %r" % [r["id"] for r in out if not r.get("caught")])
+        return 0
     rp = os.path.join(root, "RESULTS.json")
     merged = {}
     if os.path.exists(rp):
